@@ -278,3 +278,40 @@ def hang_payload(what, script_by_run):
     m = re.search(r'run (\d+)', what)
     sc = script_by_run.get(int(m.group(1))) if m else None
     return dict(kind="hang", what=what, script=sc)
+
+
+class Proc:
+    """A harness subprocess whose stdout / stderr go to FILES: with pipes, a process that prints more than the pipe
+    holds (panic messages of worker threads with backtraces) blocks until somebody reads - and the sequential
+    communicate() of several shards made exactly that look like a call that does not return."""
+
+    def __init__(self, argv, logbase, env=None):
+        self.out_path, self.err_path = logbase + ".stdout", logbase + ".stderr"
+        self._o, self._e = open(self.out_path, "w"), open(self.err_path, "w")
+        self.p = subprocess.Popen(argv, stdout=self._o, stderr=self._e, env=env)
+
+    def communicate(self, timeout=None):
+        try:
+            self.p.wait(timeout=timeout)
+        finally:
+            self._o.close()
+            self._e.close()
+        return self._read(self.out_path), self._read(self.err_path)
+
+    @staticmethod
+    def _read(path, limit=200000):
+        try:
+            with open(path, "rb") as f:
+                f.seek(0, 2)
+                n = f.tell()
+                f.seek(max(0, n - limit))
+                return f.read().decode("utf-8", "replace")
+        except OSError:
+            return ""
+
+    def kill(self):
+        self.p.kill()
+
+    @property
+    def returncode(self):
+        return self.p.returncode
